@@ -75,6 +75,16 @@ func c16Cell(t *testing.T, cause, cond string, order int, will, clean bool, seed
 			}
 		}
 		var uids uidGen
+		// in every third cell the history before the teardown contains publishes the topic tree refuses
+		// to match (a '$'-leading level): they reach nobody and must leave nothing behind
+		if idx%3 == 1 {
+			params["refused_publishes_before"] = true
+			for _, tp := range []string{"$SYS/broker/load", "$share/x", "will/$x"} {
+				P.SendPacket(&rc.Packet{Type: rc.PUBLISH, Topic: []byte(tp), Payload: spec.MakePayload(uids.next(), 0, 40)})
+			}
+			settle()
+			out.Count("c16.cells_with_refused_publishes", 1)
+		}
 		flood := func(from *bclient, topic string, bytes int) {
 			sent := 0
 			for sent < bytes {
